@@ -398,16 +398,15 @@ def impl_kinds(dump):
 def inner(ctx, exe, d, hists, ngc):
     """two runs: the first learns the gc counts at the history's collections, the second dumps those"""
     first = run_impl(d, hists, timeout=300)
-    gcs = []
+    gcs, must = [], []
     for h, obs in zip(hists, first):
         if isinstance(obs, list):
             for o in obs:
                 m = re.search(r"\|gc=(\d+)", o)
-                if m:
-                    gcs.append(int(m.group(1)))
-    gcs = [g for g in gcs if g > 0]
+                if m and int(m.group(1)) > 0:
+                    (must if h[2] == "ports-shared-fileno" else gcs).append(int(m.group(1)))
     step = max(1, len(gcs) // ngc)
-    wanted = sorted(set(gcs[::step][:ngc]))
+    wanted = sorted(set(gcs[::step][:ngc] + must))[:60]      # the hook accepts at most 64 collection numbers
     if not wanted:
         ctx.broken("inner-correspondence:C16", "no collection to dump")
         return
